@@ -74,6 +74,9 @@ fn to_out<T: std::fmt::Display>(r: Result<T, serde_saphyr::Error>) -> Out {
         Ok(v) => Ok(v.to_string()),
         Err(e) => {
             let k = bm::effective_kind(&e);
+            if !k.wrapped && (k.kind == "Message" || k.kind == "AliasError") && e.to_string().contains(POISON) {
+                return Err(("Poison".to_string(), None));
+            }
             if k.wrapped {
                 WRAPPED.fetch_add(1, std::sync::atomic::Ordering::Relaxed);
             }
@@ -97,6 +100,88 @@ fn violation(run: &Run, sig: &str, case: Value, detail: impl Into<String>) {
         run.violation(sig, case, detail);
     } else {
         run.count(&format!("violations_beyond_cap/{sig}"), 1);
+    }
+}
+
+/// Scalar text at which the `PVal` target fails with a custom (type-level) error while armed.
+const POISON: &str = "POISON-VALUE";
+thread_local! {
+    static ARMED: std::cell::Cell<bool> = const { std::cell::Cell::new(true) };
+}
+fn with_armed<T>(armed: bool, f: impl FnOnce() -> T) -> T {
+    let was = ARMED.with(|a| a.replace(armed));
+    let r = f();
+    ARMED.with(|a| a.set(was));
+    r
+}
+
+/// `Val`, except that (while armed) visiting the string `POISON-VALUE` is a deserialization error —
+/// raised from inside whatever containers are open at that point, like a type mismatch in a derived type.
+#[derive(Debug, PartialEq)]
+struct PVal(Val);
+impl std::fmt::Display for PVal {
+    fn fmt(&self, f: &mut std::fmt::Formatter<'_>) -> std::fmt::Result {
+        self.0.fmt(f)
+    }
+}
+struct PVisitor;
+impl<'de> serde::de::Visitor<'de> for PVisitor {
+    type Value = PVal;
+    fn expecting(&self, f: &mut std::fmt::Formatter) -> std::fmt::Result {
+        f.write_str("any YAML value except the poison value")
+    }
+    fn visit_unit<E>(self) -> Result<PVal, E> {
+        Ok(PVal(Val::Null))
+    }
+    fn visit_none<E>(self) -> Result<PVal, E> {
+        Ok(PVal(Val::Null))
+    }
+    fn visit_some<D: serde::Deserializer<'de>>(self, d: D) -> Result<PVal, D::Error> {
+        <PVal as serde::Deserialize>::deserialize(d)
+    }
+    fn visit_bool<E>(self, v: bool) -> Result<PVal, E> {
+        Ok(PVal(Val::Bool(v)))
+    }
+    fn visit_i64<E>(self, v: i64) -> Result<PVal, E> {
+        Ok(PVal(Val::Int(v as i128)))
+    }
+    fn visit_u64<E>(self, v: u64) -> Result<PVal, E> {
+        Ok(PVal(Val::Int(v as i128)))
+    }
+    fn visit_i128<E>(self, v: i128) -> Result<PVal, E> {
+        Ok(PVal(Val::Int(v)))
+    }
+    fn visit_f64<E>(self, v: f64) -> Result<PVal, E> {
+        Ok(PVal(Val::f(v)))
+    }
+    fn visit_str<E: serde::de::Error>(self, v: &str) -> Result<PVal, E> {
+        if v == POISON && ARMED.with(|a| a.get()) {
+            return Err(E::custom(format!("{POISON} is not acceptable here")));
+        }
+        Ok(PVal(Val::Str(v.to_string())))
+    }
+    fn visit_bytes<E>(self, v: &[u8]) -> Result<PVal, E> {
+        Ok(PVal(Val::Bytes(v.to_vec())))
+    }
+    fn visit_seq<A: serde::de::SeqAccess<'de>>(self, mut a: A) -> Result<PVal, A::Error> {
+        let mut v = Vec::new();
+        while let Some(x) = a.next_element::<PVal>()? {
+            v.push(x.0);
+        }
+        Ok(PVal(Val::Seq(v)))
+    }
+    fn visit_map<A: serde::de::MapAccess<'de>>(self, mut a: A) -> Result<PVal, A::Error> {
+        let mut v = Vec::new();
+        while let Some(k) = a.next_key::<PVal>()? {
+            let x = a.next_value::<PVal>()?;
+            v.push((k.0, x.0));
+        }
+        Ok(PVal(Val::Map(v)))
+    }
+}
+impl<'de> serde::Deserialize<'de> for PVal {
+    fn deserialize<D: serde::Deserializer<'de>>(d: D) -> Result<PVal, D::Error> {
+        d.deserialize_any(PVisitor)
     }
 }
 
@@ -480,7 +565,7 @@ fn read_items(run: &Run, text: &str, budget: serde_saphyr::Budget, cap: usize) -
     vcore::obs::catch(|| {
         let mut rd = text.as_bytes();
         let mut v = Vec::new();
-        for it in serde_saphyr::read_with_options::<_, Val>(&mut rd, o) {
+        for it in serde_saphyr::read_with_options::<_, PVal>(&mut rd, o) {
             v.push(to_out(it));
             if v.len() >= cap {
                 break;
@@ -490,8 +575,14 @@ fn read_items(run: &Run, text: &str, budget: serde_saphyr::Budget, cap: usize) -
     })
 }
 
+fn is_poison(o: &Out) -> bool {
+    matches!(o, Err((k, None)) if k == "Poison")
+}
+
+/// The iterator documents recovery after a deserialization error only; whatever follows a budget,
+/// alias-limit or syntax error is unspecified and cut off.
 fn truncate_after_first_err(v: &mut Vec<Out>) {
-    if let Some(i) = v.iter().position(|o| o.is_err()) {
+    if let Some(i) = v.iter().position(|o| o.is_err() && !is_poison(o)) {
         v.truncate(i + 1);
     }
 }
@@ -528,10 +619,13 @@ fn check_perdoc(run: &Run, docs: &[String], loc: &mut Local) {
     // unlimited, monitored: items + guard
     run.eval();
     let (o, _got) = bm::options_with(bm::unlimited_budget());
+    // (poison disarmed: every document is consumed completely, so the trace can be compared with the model)
     let (r, mon) = bm::monitor(MonLimits::none(), m.max_anchor_id, || {
         vcore::obs::catch(|| {
-            let mut rd = text.as_bytes();
-            serde_saphyr::read_with_options::<_, Val>(&mut rd, o).map(to_out).take(docs.len() + 3).collect::<Vec<Out>>()
+            with_armed(false, || {
+                let mut rd = text.as_bytes();
+                serde_saphyr::read_with_options::<_, PVal>(&mut rd, o).map(to_out).take(docs.len() + 3).collect::<Vec<Out>>()
+            })
         })
     });
     let base = match r {
@@ -550,6 +644,47 @@ fn check_perdoc(run: &Run, docs: &[String], loc: &mut Local) {
         return;
     }
     loc.add("verdict_capable_streams");
+    // documents that fail at the type level (poison armed), and the unlimited armed run
+    let poisoned: Vec<bool> = docs.iter().map(|d| d.contains(POISON)).collect();
+    let first_poisoned = poisoned.iter().position(|p| *p);
+    let after_failed_sig = "C07:per-document:document-after-failed-one-charged-for-it";
+    // first index at which two item lists differ, if it lies after a document that failed with the poison error
+    let diverges_after_failed = |obs: &[Out], exp: &[Out]| -> bool {
+        let i = (0..obs.len().max(exp.len())).find(|&i| obs.get(i) != exp.get(i));
+        match (i, first_poisoned) {
+            (Some(i), Some(fp)) => i > fp && (fp..i).any(|k| poisoned[k] && obs.get(k).is_some_and(is_poison)),
+            _ => false,
+        }
+    };
+    if first_poisoned.is_some() {
+        loc.add("streams_with_failing_documents");
+        let armed = match read_items(run, &text, bm::unlimited_budget(), docs.len() + 3) {
+            Ok(v) => v,
+            Err(p) => {
+                violation(run, &format!("C07:panic:{}", vcore::obs::panic_site(&p)), case(json!("unlimited, poison armed")), p);
+                return;
+            }
+        };
+        let want: Vec<Out> =
+            (0..docs.len()).map(|j| if poisoned[j] { Err(("Poison".to_string(), None)) } else { base[j].clone() }).collect();
+        if armed != want {
+            if diverges_after_failed(&armed, &want) {
+                violation(
+                    run,
+                    after_failed_sig,
+                    case(json!("unlimited")),
+                    format!(
+                        "every limit off: items {:?}, expected {:?}",
+                        armed.iter().map(show).collect::<Vec<_>>(),
+                        want.iter().map(show).collect::<Vec<_>>()
+                    ),
+                );
+            } else {
+                run.inconclusive("poisoned document did not fail with the poison error");
+            }
+            return;
+        }
+    }
     *loc.c.entry("hook/doc_resets").or_insert(0) += mon.doc_resets;
     *loc.c.entry("hook/replay_pumps").or_insert(0) += mon.pumps_replay;
     let merge_unspecified = m.flags.alias_key_to_merge_scalar || m.flags.tagged_merge_like;
@@ -611,16 +746,20 @@ fn check_perdoc(run: &Run, docs: &[String], loc: &mut Local) {
         truncate_after_first_err(&mut observed);
         // (a) differential: concatenation of the documents read alone
         let mut expected: Vec<Out> = Vec::new();
+        let mut solo_first: Vec<Option<Out>> = vec![None; docs.len()];
         let mut bad = false;
-        for d in docs {
+        for (j, d) in docs.iter().enumerate() {
             match read_items(run, d, b.clone(), 4) {
-                Ok(v) => expected.extend(v),
+                Ok(v) => {
+                    solo_first[j] = v.first().cloned();
+                    expected.extend(v);
+                }
                 Err(p) => {
                     violation(run, &format!("C07:panic:{}", vcore::obs::panic_site(&p)), cj(), p);
                     bad = true;
                 }
             }
-            if expected.iter().any(|o| o.is_err()) {
+            if expected.iter().any(|o| o.is_err() && !is_poison(o)) {
                 break;
             }
         }
@@ -646,7 +785,9 @@ fn check_perdoc(run: &Run, docs: &[String], loc: &mut Local) {
             }
         };
         if observed != expected {
-            let sig = if cumulative_anchor_class(&observed, &expected) {
+            let sig = if diverges_after_failed(&observed, &expected) {
+                after_failed_sig.to_string()
+            } else if cumulative_anchor_class(&observed, &expected) {
                 "C07:per-document:anchors:cumulative-across-documents".to_string()
             } else {
                 format!("C07:per-document:{f}:stream-differs-from-documents-alone")
@@ -666,9 +807,22 @@ fn check_perdoc(run: &Run, docs: &[String], loc: &mut Local) {
         }
         // (b) model: the first document whose own usage exceeds the limit fails with that field; all before are Ok
         if f != "events" && f != "documents" {
-            let first_bad = (0..docs.len()).find(|&j| per_doc(f, j) > limit);
+            // a document that fails at the type level is taken from its run alone (it may meet the limit
+            // before the poison); every other document follows the per-document model count
+            let first_bad = (0..docs.len()).find(|&j| !poisoned[j] && per_doc(f, j) > limit);
             let mut want: Vec<Out> = Vec::new();
             for j in 0..docs.len() {
+                if poisoned[j] {
+                    match &solo_first[j] {
+                        Some(o) if is_poison(o) => want.push(o.clone()),
+                        Some(o) => {
+                            want.push(o.clone());
+                            break;
+                        }
+                        None => break,
+                    }
+                    continue;
+                }
                 if Some(j) == first_bad {
                     want.push(Err(("Budget".to_string(), Some(f))));
                     break;
@@ -676,7 +830,9 @@ fn check_perdoc(run: &Run, docs: &[String], loc: &mut Local) {
                 want.push(base[j].clone());
             }
             if observed != want {
-                let sig = if cumulative_anchor_class(&observed, &want) {
+                let sig = if diverges_after_failed(&observed, &want) {
+                    after_failed_sig.to_string()
+                } else if cumulative_anchor_class(&observed, &want) {
                     "C07:per-document:anchors:cumulative-across-documents".to_string()
                 } else if f == "merge_keys" && m.flags.alias_direct_map_child {
                     SIG_MERGE_MISCOUNT.to_string()
@@ -705,7 +861,8 @@ fn check_perdoc(run: &Run, docs: &[String], loc: &mut Local) {
             }
         }
         if f == "documents" {
-            let all_ok: Vec<Out> = base.clone();
+            let all_ok: Vec<Out> =
+                (0..docs.len()).map(|j| if poisoned[j] { Err(("Poison".to_string(), None)) } else { base[j].clone() }).collect();
             if observed != all_ok {
                 violation(
     run,
@@ -879,7 +1036,43 @@ fn stream_pool() -> Vec<Node> {
         Node::map(vec![(p("x"), p("1").with_anchor("a")), (p("m"), Node::fmap(vec![(p("k"), p("2"))]).with_anchor("b")), (p("t"), Node::fmap(vec![(p("q"), Node::alias("a")), (p("<<"), Node::alias("b"))]))]),
         Node::dq("long scalar value"),
         Node::seq(vec![p("a1").with_anchor("a"), p("a2").with_anchor("a"), Node::alias("a")]),
+        // documents that fail at the type level (PVal rejects the poison scalar) with containers open:
+        // at the root, mid-sequence, deep inside nested containers, as a value after a key, as a key,
+        // after anchors / an alias / a merge key
+        p(POISON),
+        Node::seq(vec![p("1"), p("2"), p("3"), p(POISON), p("5"), p("6")]),
+        Node::map(vec![
+            (p("a"), Node::map(vec![(p("b"), Node::map(vec![(p("c"), Node::seq(vec![p("x"), p(POISON), p("y")]))]))])),
+            (p("z"), p("1")),
+        ]),
+        Node::map(vec![(p("k"), p("v")), (p("j"), p(POISON)), (p("l"), p("m"))]),
+        Node::map(vec![(p("k"), p("v")), (p(POISON), Node::seq(vec![p("1"), p("2")])), (p("l"), p("m"))]),
+        Node::map(vec![
+            (p("b"), Node::fmap(vec![(p("k"), p("v"))]).with_anchor("a")),
+            (p("t"), Node::fmap(vec![(p("<<"), Node::alias("a")), (p("q"), p(POISON)), (p("r"), p("1"))])),
+            (p("u"), p("1")),
+        ]),
+        Node::map(vec![
+            (p("x"), p("1").with_anchor("a")),
+            (p("t"), Node::fmap(vec![(p("q"), Node::alias("a")), (p(POISON), p("1")), (p("<<"), Node::fmap(vec![(p("w"), p("2"))]))])),
+        ]),
     ]
+}
+
+/// Replace one scalar leaf (key or value, anywhere) by the poison scalar; false if the tree has no scalar.
+fn poison_random_leaf(rng: &mut Rng, t: &mut Node) -> bool {
+    let paths: Vec<Vec<usize>> =
+        treegen::node_paths(t).into_iter().filter(|p| matches!(treegen::node_at(t, p), Node::Scalar { .. })).collect();
+    if paths.is_empty() {
+        return false;
+    }
+    let p = rng.pick(&paths).clone();
+    if let Node::Scalar { text, style, tag, .. } = treegen::node_at_mut(t, &p) {
+        *text = POISON.to_string();
+        *style = ydoc::Style::Plain;
+        *tag = None;
+    }
+    true
 }
 
 fn render_doc(run: &Run, t: &Node, flow: bool, ro: &RenderOpts) -> Option<String> {
@@ -1026,7 +1219,10 @@ fn main() {
                     if rng.chance(2, 3) {
                         pool[rng.below(pool.len())].clone()
                     } else {
-                        let t = random_decorated(&mut rng);
+                        let mut t = random_decorated(&mut rng);
+                        if rng.chance(1, 4) {
+                            poison_random_leaf(&mut rng, &mut t);
+                        }
                         let is_nullish_root = matches!(&t, Node::Scalar { text, .. } if text == "~" || text.is_empty());
                         match render_checked(&t, &ro) {
                             Some((s, _)) if !is_nullish_root => s,
